@@ -267,6 +267,9 @@ type lox struct {
 
 	_qla    int
 	_qlasym any
+
+	// _stuck is true from a successful error recovery until a token is shifted.
+	_stuck bool
 }
 
 func (p *parser) parse(lex _Lexer) bool {
@@ -290,6 +293,9 @@ func (p *parser) parse(lex _Lexer) bool {
 		if action == accept {
 			break
 		} else if action >= 0 { // shift
+			if p._la != ERROR {
+				p._stuck = false
+			}
 			latok, ok := p._lasym.(Token)
 			if !ok {
 				latok = p._lasym.(Error).Token
@@ -377,6 +383,18 @@ func (p *parser) _recover() bool {
 		errSym = p._makeError()
 	}
 
+	if p._stuck {
+		// The last recovery resumed at this very token and nothing has been
+		// shifted since: resuming here once more would never end. Give the
+		// token up.
+		if p._la == EOF {
+			return false
+		}
+		if p._la != ERROR {
+			p._readToken()
+		}
+	}
+
 	for p._la == ERROR {
 		p._readToken()
 	}
@@ -439,6 +457,7 @@ func (p *parser) _recover() bool {
 				p._qlasym = p._lasym
 				p._la = ERROR
 				p._lasym = deliver
+				p._stuck = true
 				return true
 			}
 
